@@ -622,15 +622,30 @@ func toDeleteNotification(n *pb.Notification, timestamp int64) *pb.Notification 
 	case n.GetAtomic():
 		d.Delete = []*pb.Path{{Elem: prefix.GetElem(), Element: prefix.GetElement()}}
 	case len(prefix.GetElem()) > 0 || len(path.GetElem()) > 0:
+		// At least one of prefix and path is in structured form: express both
+		// in it, so that neither part of the leaf's path is lost.
 		// Copy the prefix elements: appending to the stored notification's own
 		// slice would share its backing array between delete notifications.
-		elems := append([]*pb.PathElem(nil), prefix.GetElem()...)
-		d.Delete = []*pb.Path{{Elem: append(elems, path.GetElem()...)}}
+		elems := append([]*pb.PathElem(nil), pathElems(prefix)...)
+		d.Delete = []*pb.Path{{Elem: append(elems, pathElems(path)...)}}
 	default:
 		elements := append([]string(nil), prefix.GetElement()...)
 		d.Delete = []*pb.Path{{Element: append(elements, path.GetElement()...)}}
 	}
 	return d
+}
+
+// pathElems returns the elements of p in structured form, converting a path
+// that is given in the deprecated string form.
+func pathElems(p *pb.Path) []*pb.PathElem {
+	if len(p.GetElem()) > 0 || len(p.GetElement()) == 0 {
+		return p.GetElem()
+	}
+	elems := make([]*pb.PathElem, 0, len(p.GetElement()))
+	for _, e := range p.GetElement() {
+		elems = append(elems, &pb.PathElem{Name: e})
+	}
+	return elems
 }
 
 func (t *Target) gnmiRemove(n *pb.Notification) []*ctree.Leaf {
